@@ -606,6 +606,12 @@ def idle_findings(world):
         sz = getattr(fm, "size", None)
         if sz is not None and hasattr(sz, "var"):
             walk_f(sz, where + ".size", seen)
+            try:
+                if getattr(fm, "is_scalar", False) and len(fm.field_l) != int(sz.get_val()):
+                    out.append("list %s holds %d element models but its size is %d (pre-allocated elements left behind)" % (
+                        where, len(fm.field_l), int(sz.get_val())))
+            except Exception:
+                pass
         for c in getattr(fm, "constraint_model_l", None) or []:
             walk_c(c, where + ":" + str(getattr(c, "name", "?")), set())
         for c in getattr(fm, "constraint_dynamic_model_l", None) or []:
@@ -856,6 +862,14 @@ def decide_call(world, spec, oi, op, q, opts, SolveFailure):
                 changed.append((R.vname(path), before[path], after[path]))
         if changed:
             finding("nonrandom_changed", "fields that are not random in the call changed (failing call): %s" % changed)
+        if opts.get("check_lists"):
+            # random fields (and the content / length of random lists) are unspecified after a failing call: take them as the user
+            # now sees them; len(), size, indexing and iteration must still agree
+            with _quiet():
+                world.sync_shadow_values()
+                lf = list_facade_findings(world)
+            for w in lf:
+                finding("list_facade", "after the failing call: " + w)
     summary["softs"] = len(softs)
     rec = {"summary": summary, "findings": findings, "A": A, "ref": ref, "env": env, "instances": instances,
            "softs": softs, "subs": subs, "before": before, "exc": exc, "fm_path": fm_path}
